@@ -2360,9 +2360,28 @@ class ChannelManager:
             )
 
     def on_l2cap_command_reject(
-        self, _connection: Connection, _cid: int, packet: L2CAP_Command_Reject
+        self, connection: Connection, _cid: int, packet: L2CAP_Command_Reject
     ) -> None:
         logger.warning(f'{color("!!! Command rejected:", "red")} {packet.reason}')
+
+        # A rejected connection request will never be answered: fail it now.
+        error = L2capError(packet.reason, 'COMMAND_REJECTED')
+        if request := self.le_coc_requests.pop(
+            (connection.handle, packet.identifier), None
+        ):
+            channel = self.find_channel(connection.handle, request.source_cid)
+            if channel is not None and channel.connection_result is not None:
+                channel.connection_result.set_exception(error)
+                channel.connection_result = None
+                channel._change_state(LeCreditBasedChannel.State.CONNECTION_ERROR)
+        elif pending_connection := self.pending_credit_based_connections.get(
+            connection.handle, {}
+        ).pop(packet.identifier, None):
+            connection_result, channels = pending_connection
+            for channel in channels:
+                channel._change_state(LeCreditBasedChannel.State.CONNECTION_ERROR)
+            if not connection_result.done():
+                connection_result.set_exception(error)
 
     def on_l2cap_connection_request(
         self, connection: Connection, cid: int, request: L2CAP_Connection_Request
